@@ -28,7 +28,7 @@ from . import readback
 WATCHDOG_S = 900
 LEVELS = {"L": 1, "M": 0, "Q": 3, "H": 2}
 LEVEL_NAMES = {v: k for k, v in LEVELS.items()}
-FACTORIES = ["pil", "pypng", "svg", "svgpath", "svgfrag", "styled"]
+FACTORIES = ["default", "pil", "pypng", "svg", "svgpath", "svgfrag", "styled"]
 MODE_NUMBER, MODE_ALNUM, MODE_BYTE = 1, 2, 4
 EMPTY = (b"",)            # packed form of the never-compiled matrix [[]]
 
@@ -75,6 +75,8 @@ def dec_value(v):
 
 
 def factory_class(name):
+    if name == "default":
+        return None            # make_image() picks the object's / the library's default
     if name == "pil":
         from qrcode.image.pil import PilImage
         return PilImage
@@ -240,9 +242,19 @@ class Model:
                 "auto" if self.mask is None else "set", warm, self.last_failed)
 
 
+def numeric_string(value):
+    return isinstance(value, str) and value.lstrip("+-").isdigit()
+
+
 def in_range(attr, value):
     """The property's own statement of validity -> (valid, expected exception
     type names when invalid)."""
+    if attr != "mask_pattern" and numeric_string(value):
+        # a number spelled as a string: the statement is silent on the type, but its
+        # *value* is either in range or not.  Out of range -> must be rejected (either
+        # exception type); in range -> see op_set/op_new (accept or reject, both fine)
+        ok, _ = in_range(attr, int(value))
+        return ok, ("ValueError", "TypeError")
     if attr == "version":
         if value is None:
             return True, ()
@@ -398,6 +410,13 @@ class Run:
                 self.viol("C18", "C18/wrong-exception-at-construction",
                           f"QRCode({kw}) raised {exc!r}, expected {sorted(expected)}", fp)
             return
+        if numeric_string(full["version"]):
+            if exc is not None:
+                if type(exc).__name__ not in ("ValueError", "TypeError"):
+                    self.viol("C18", "C18/wrong-exception-at-construction",
+                              f"QRCode({kw}) raised {exc!r}", fp)
+                return
+            full["version"] = int(full["version"])
         if exc is not None:
             self.viol("C18", "C18/in-range-rejected-at-construction",
                       f"QRCode({kw}) raised {exc!r}", fp)
@@ -568,6 +587,15 @@ class Run:
         self.log.ev("set", op["obj"], attr, repr(value), type(exc).__name__)
         field = {"version": "version", "mask_pattern": "mask", "border": "border",
                  "box_size": "box"}[attr]
+        if ok and numeric_string(value):
+            # in-range number spelled as a string: accepting it (as that number) and
+            # rejecting it are both fine
+            if exc is not None:
+                if type(exc).__name__ not in ("ValueError", "TypeError"):
+                    self.viol("C18", "C18/wrong-exception-at-assignment",
+                              f"{attr} = {value!r} raised {exc!r}", fp)
+                return
+            value = int(value)
         if ok:
             if exc is not None:
                 self.viol("C18", "C18/in-range-rejected-at-assignment",
@@ -1072,14 +1100,16 @@ SKELETON = ["add", "clear", "make_fit", "make_nofit", "set_version", "set_level"
             "print_tty"]
 
 INVALID = {
-    "version": [-1, 0, 41, 42, 255, -40],
-    "mask_pattern": [-1, 8, 9, 255, {"str": "3"}, {"float": 2.0}, {"list": [1]}],
+    "version": [-1, 0, 41, 42, 255, -40, 2 ** 31, 10 ** 20, -10 ** 20, {"str": "41"},
+                {"str": "0"}, {"str": "-1"}],
+    "mask_pattern": [-1, 8, 9, 255, {"str": "3"}, {"float": 2.0}, {"list": [1]}, 2 ** 31,
+                     -10 ** 20, {"float": 7.0}],
     "border": [-1, -3, -4, -1, {"float": -0.5}, {"float": -0.25}, {"float": -1.5},
-               {"float": 2.7}],
-    "box_size": [0, -1, -10],
+               {"float": 2.7}, -10 ** 20, -2 ** 31, {"str": "-1"}],
+    "box_size": [0, -1, -10, -2 ** 31, {"str": "0"}, {"str": "-3"}],
 }
 VALID_EDGE = {
-    "version": [1, 40, None, 2, 7],
+    "version": [1, 40, None, 2, 7, {"str": "5"}, {"str": "40"}],
     "mask_pattern": [0, 7, None, 3],
     "border": [0, 1, 9, 4],
     "box_size": [1, 2, 3, 10],
@@ -1185,8 +1215,9 @@ def gen_op(rng, kind, obj, pool, tier, focus):
                              for _ in range(rng.choice([1, 3, 12]))]}
     if kind == "image":
         r = rng.random()
-        f = ("pil" if r < 0.25 else "pypng" if r < 0.45 else "svg" if r < 0.6 else
-             "svgpath" if r < 0.75 else "svgfrag" if r < 0.92 else "styled")
+        f = ("default" if r < 0.12 else "pil" if r < 0.25 else "pypng" if r < 0.45 else
+             "svg" if r < 0.6 else "svgpath" if r < 0.75 else "svgfrag" if r < 0.92 else
+             "styled")
         op = {"op": "image", "obj": obj, "factory": f}
         if rng.random() < 0.25:
             op["fail_write_at"] = rng.choice([0, 1, 2, 4])
